@@ -139,17 +139,25 @@ Proof.
   rewrite skipn_all, Nat.sub_diag. reflexivity.
 Qed.
 
+(* in-place overwrites cannot reach log0: the buffer never overwrites in place, or log0 ends at a staging
+   position of `base`, or lastCheckpoint lies at or above the end of log0 *)
+Definition prot (ip : bool) (log0 : list kv) (base : list nat) (st : mbuf) : Prop :=
+  ip = false \/ (exists rest, base = length log0 :: rest) \/ (length log0 <= b_cp st)%nat.
+Definition invp ip log0 base st : Prop := inv log0 base st /\ prot ip log0 base st.
+
 Lemma inv_write ip log0 base st k v :
-  (ip = false \/ exists rest, base = length log0 :: rest) ->
-  inv log0 base st -> inv log0 base (write ip st k v).
+  invp ip log0 base st -> invp ip log0 base (write ip st k v).
 Proof.
-  intros Hc (x & extra & Hl & Hs & Hf). unfold write.
+  intros [(x & extra & Hl & Hs & Hf) Hc].
+  assert (Hp : prot ip log0 base (write ip st k v)).
+  { unfold write. destruct (if ip then try_swap _ _ _ _ else None); exact Hc. }
+  split; [|exact Hp]. unfold write.
   destruct (if ip then try_swap (b_log st) k v (room_of st) else None) as [l'|] eqn:T.
-  - destruct ip; [|discriminate]. destruct Hc as [Hc|(rest & ->)]; [discriminate|].
+  - destruct ip; [|discriminate].
     assert (Hroom : (room_of st <= length x)%nat).
-    { unfold room_of. rewrite Hs, Hl, app_length. destruct extra as [|q e]; cbn [app].
-      - lia.
-      - inversion Hf; subst. lia. }
+    { unfold room_of. rewrite Hl, app_length.
+      destruct Hc as [Hc|[(rest & ->)|Hc]]; [discriminate| |lia].
+      rewrite Hs. destruct extra as [|q e]; cbn [app hd]; [lia|]. inversion Hf; subst. lia. }
     rewrite Hl in T. destruct (try_swap_prefix x log0 k v _ l' Hroom T) as (x' & -> & _).
     exists x', extra. cbn [b_log b_stages]. repeat split; assumption.
   - exists ((k, v) :: x), extra. cbn [b_log b_stages]. rewrite Hl. repeat split; assumption.
@@ -163,59 +171,76 @@ Proof.
   destruct extra as [|q e]; [cbn in H1; lia|eauto].
 Qed.
 
+Lemma prot_mono ip log0 base st st' : prot ip log0 base st ->
+  ((length log0 <= b_cp st)%nat -> (length log0 <= b_cp st')%nat) -> prot ip log0 base st'.
+Proof. intros [H|[H|H]] Hm; [left; exact H|right; left; exact H|right; right; apply Hm; exact H]. Qed.
+
 Lemma inv_step ip log0 base st o :
-  (ip = false \/ exists rest, base = length log0 :: rest) ->
-  inv log0 base st -> scoped_op (length base) (length log0) o -> inv log0 base (step ip st o).
+  invp ip log0 base st -> scoped_op (length base) (length log0) o -> invp ip log0 base (step ip st o).
 Proof.
-  intros Hc Hi Ho. destruct o as [k v|k| |h|h| |n]; cbn [step scoped_op] in *.
-  - destruct (is_tomb v); [exact Hi|apply inv_write; assumption].
+  intros Hip Ho. pose proof Hip as [Hi Hc].
+  destruct o as [k v|k| |h|h| |n]; cbn [step scoped_op] in *.
+  - destruct (is_tomb v); [exact Hip|apply inv_write; assumption].
   - apply inv_write; assumption.
-  - destruct Hi as (x & extra & Hl & Hs & Hf).
+  - destruct Hi as (x & extra & Hl & Hs & Hf). split; [|eapply prot_mono; [exact Hc|intros H; exact H]].
     exists x, (length (b_log st) :: extra). cbn [b_log b_stages]. rewrite Hs. repeat split; try assumption.
     constructor; [rewrite Hl, app_length; lia|assumption].
-  - destruct (handle_live st h) eqn:L; [|exact Hi].
+  - destruct (handle_live st h) eqn:L; [|exact Hip].
     destruct Hi as (x & extra & Hl & Hs & Hf).
     destruct (live_extra st h extra base Hs L Ho) as (q & e & ->).
+    split; [|eapply prot_mono; [exact Hc|intros H; exact H]].
     exists x, e. cbn [b_log b_stages]. rewrite Hs. cbn [app tl]. inversion Hf; subst. repeat split; assumption.
-  - destruct (handle_live st h) eqn:L; [|exact Hi].
+  - destruct (handle_live st h) eqn:L; [|exact Hip].
     destruct Hi as (x & extra & Hl & Hs & Hf).
     destruct (live_extra st h extra base Hs L Ho) as (q & e & ->).
     inversion Hf; subst. rewrite Hs, Hl. cbn [app hd tl].
+    split; [|eapply prot_mono; [exact Hc|cbn [b_cp]; lia]].
     destruct (truncate_app x log0 q H1) as (x' & Hx).
     exists x', e. cbn [b_log b_stages]. repeat split; assumption.
-  - exact Hi.
+  - destruct Hi as (x & extra & Hl & Hs & Hf).
+    split; [|eapply prot_mono; [exact Hc|cbn [b_cp]; rewrite Hl, app_length; lia]].
+    exists x, extra. cbn [b_log b_stages]. repeat split; assumption.
   - destruct Hi as (x & extra & Hl & Hs & Hf). rewrite Hl.
+    split; [|eapply prot_mono; [exact Hc|cbn [b_cp]; lia]].
     destruct (truncate_app x log0 n Ho) as (x' & Hx).
     exists x', extra. cbn [b_log b_stages]. repeat split; assumption.
 Qed.
 
 Lemma inv_run ip log0 base ops : forall st,
-  (ip = false \/ exists rest, base = length log0 :: rest) ->
-  inv log0 base st -> Forall (scoped_op (length base) (length log0)) ops -> inv log0 base (run ip ops st).
+  invp ip log0 base st -> Forall (scoped_op (length base) (length log0)) ops -> invp ip log0 base (run ip ops st).
 Proof.
-  unfold run. induction ops as [|o ops IH]; intros st Hc Hi Ho; cbn [fold_left]; [exact Hi|].
+  unfold run. induction ops as [|o ops IH]; intros st Hi Ho; cbn [fold_left]; [exact Hi|].
   inversion Ho; subst. apply IH; try assumption. apply inv_step; assumption.
 Qed.
 
-(* Staging h; any scoped ops; Cleanup h (legal: h is the live handle) gives back the state before Staging *)
+Lemma invp_staging ip st :
+  invp ip (b_log st) (length (b_log st) :: b_stages st) (step ip st OStaging).
+Proof.
+  split; [exists [], []; cbn; repeat split; constructor|right; left; eauto].
+Qed.
+
+Lemma live_no_extra (st1 : mbuf) h extra base : b_stages st1 = extra ++ base ->
+  handle_live st1 h = true -> h = length base -> extra = [].
+Proof.
+  intros HS Hl Hh. unfold handle_live in Hl. apply Bool.andb_true_iff in Hl. destruct Hl as [H1 _].
+  apply Nat.eqb_eq in H1. rewrite HS, app_length in H1. destruct extra; [reflexivity|cbn in H1; lia].
+Qed.
+
+(* Staging h; any scoped ops; Cleanup h (legal: h is the live handle): value log and staging stack are those
+   before Staging (lastCheckpoint may have been raised to the cut: it only forbids later in-place overwrites) *)
 Lemma cleanup_restores ip st ops :
   let st1 := step ip st OStaging in
   let h := length (b_stages st1) in
   Forall (scoped_op h (length (b_log st))) ops ->
   handle_live (run ip ops st1) h = true ->
-  step ip (run ip ops st1) (OCleanup h) = st.
+  b_log (step ip (run ip ops st1) (OCleanup h)) = b_log st /\
+  b_stages (step ip (run ip ops st1) (OCleanup h)) = b_stages st.
 Proof.
   intros st1 h Ho Hl.
-  assert (Hi : inv (b_log st) (length (b_log st) :: b_stages st) st1).
-  { exists [], []. cbn. repeat split. constructor. }
-  apply (inv_run ip _ _ ops st1) in Hi; [|right; eauto|exact Ho].
-  destruct Hi as (x & extra & HL & HS & HF).
-  assert (extra = []).
-  { unfold handle_live in Hl. apply Bool.andb_true_iff in Hl. destruct Hl as [H1 _]. apply Nat.eqb_eq in H1.
-    rewrite HS, app_length in H1. subst h st1. cbn [step b_stages length] in H1.
-    destruct extra; [reflexivity|cbn in H1; lia]. }
-  subst extra. cbn [app] in HS. cbn [step]. rewrite Hl, HS, HL. cbn [hd tl].
-  rewrite truncate_exact. destruct st; reflexivity.
+  pose proof (inv_run ip _ _ ops st1 (invp_staging ip st) Ho) as [(x & extra & HL & HS & HF) _].
+  assert (extra = []) by (eapply live_no_extra; [exact HS|exact Hl|reflexivity]).
+  subst extra. cbn [app] in HS. cbn [step]. rewrite Hl, HS, HL. cbn [hd tl b_log b_stages].
+  rewrite truncate_exact. split; reflexivity.
 Qed.
 
 (* ... Release h instead: the level's writes stay, the staging stack is the one before Staging *)
@@ -231,26 +256,21 @@ Lemma release_keeps ip st ops :
   b_stages (step ip (run ip ops st1) (ORelease h)) = b_stages st.
 Proof.
   intros st1 h Ho Hl. split; [apply release_log|].
-  assert (Hi : inv (b_log st) (length (b_log st) :: b_stages st) st1).
-  { exists [], []. cbn. repeat split. constructor. }
-  apply (inv_run ip _ _ ops st1) in Hi; [|right; eauto|exact Ho].
-  destruct Hi as (x & extra & HL & HS & HF).
-  assert (extra = []).
-  { unfold handle_live in Hl. apply Bool.andb_true_iff in Hl. destruct Hl as [H1 _]. apply Nat.eqb_eq in H1.
-    rewrite HS, app_length in H1. subst h st1. cbn [step b_stages length] in H1.
-    destruct extra; [reflexivity|cbn in H1; lia]. }
+  pose proof (inv_run ip _ _ ops st1 (invp_staging ip st) Ho) as [(x & extra & HL & HS & HF) _].
+  assert (extra = []) by (eapply live_no_extra; [exact HS|exact Hl|reflexivity]).
   subst extra. cbn [app] in HS. cbn [step]. rewrite Hl, HS. reflexivity.
 Qed.
 
-(* cp := Checkpoint(); any scoped ops; RevertToCheckpoint(cp) on a buffer that never overwrites in place *)
-Lemma revert_restores st ops :
+(* cp := Checkpoint(); any scoped ops; RevertToCheckpoint(cp): the value log is the one at the checkpoint —
+   for the code as it is (since fix 6b4091a the checkpoint protects the entries below it) *)
+Lemma revert_restores ip st ops :
+  let st1 := step ip st OCheckpoint in
   Forall (scoped_op (length (b_stages st)) (checkpoint_pos st)) ops ->
-  b_log (step false (run false ops st) (ORevert (checkpoint_pos st))) = b_log st.
+  b_log (step ip (run ip ops st1) (ORevert (checkpoint_pos st))) = b_log st.
 Proof.
-  unfold checkpoint_pos. intros Ho.
-  assert (Hi : inv (b_log st) (b_stages st) st).
-  { exists [], []. repeat split. constructor. }
-  apply (inv_run false _ _ ops st) in Hi; [|left; reflexivity|exact Ho].
-  destruct Hi as (x & extra & HL & HS & HF).
+  intros st1 Ho. unfold checkpoint_pos in *.
+  assert (Hi : invp ip (b_log st) (b_stages st) st1).
+  { split; [exists [], []; repeat split; constructor|right; right; cbn; lia]. }
+  pose proof (inv_run ip _ _ ops st1 Hi Ho) as [(x & extra & HL & HS & HF) _].
   cbn [step b_log]. rewrite HL. apply truncate_exact.
 Qed.
